@@ -158,6 +158,18 @@ theorem ellipsis_consecutive {σ : Type} (agg : Agg σ) (s : Strictness) (src : 
   obtain ⟨new, e, hn⟩ := ((all_log agg s src fuel).2.2.2.1 _ _ _ _ h).1
   exact ⟨new, e, fun l hl => (hn l hl).spec⟩
 
+/-- Sharper, since the trial comparison inside `may_match_ellipsis_impl`'s final loop runs on a
+copy of the aggregator (`agg.clone()`): one `mayMatchEllipsis` call keeps only its own `ellipsis`
+call, so every list it adds to the log is a contiguous sub-list of the candidate list it
+started with — the second alternative of `ellipsis_consecutive` never occurs. -/
+theorem ellipsis_consecutive_direct {σ : Type} (agg : Agg σ) (s : Strictness) (src : Bytes)
+    (fuel : Nat) (goals : List PNode) (cands : List Tree) (st : σ) (lg : Log)
+    (flow : Option Flow) (goals' : List PNode) (cands' : List Tree) (st' : σ) (lg' : Log)
+    (h : mayMatchEllipsis (logged agg) s src fuel goals cands (st, lg)
+      = .ok (flow, goals', cands', (st', lg'))) :
+    ∃ new, lg' = lg ++ new ∧ ∀ l ∈ new, l <:+: cands :=
+  may_log_direct agg s src fuel _ _ _ _ h
+
 /-- the same for a whole `matchNode` run: every list handed to `ellipsis` is a contiguous run
 of the children of one node of the candidate's subtree -/
 theorem ellipsis_consecutive_node {σ : Type} (agg : Agg σ) (s : Strictness) (src : Bytes)
